@@ -133,6 +133,17 @@ PROPS = {
              "identifiers. Found and repaired three defects (n-ary intersect, symdiff column mix-up, nested symdiff).",
         note="Does not decide that SEMI/ANTI JOIN on the identifier columns yields the VTL result (DuckDB semantics). union's "
              "first-occurrence numbering is a reasoned exemption of the order lint (see C15)."),
+
+    "C32": dict(
+        claimed=True, design="§3 C32",
+        technique="writer/reader agreement between SQL error('…') texts and the ordered substring decision list of the error mappers; enclosing-handler analysis of data-evaluating execute sites reachable from execute_queries; bare-raise and visitor-coverage inventory on the execution path",
+        text="Decides the structural conditions under which an execution failure can surface as a VTL error: every error text the "
+             "engine's own SQL can raise is claimed by the intended branch of the mapper serving its execution site, every branch "
+             "returns a coded VTL exception, statements that evaluate data are executed under a duckdb.Error handler that maps, no "
+             "built-in exception is raised on the execution path, and the SQL transpiler has a handler for every AST node class. Found "
+             "and repaired: the unmapped 2-1-19-21 channel. Known finding: unmapped DuckDB errors fall through raw.",
+        note="Does not decide which DuckDB errors can occur for well-typed inputs; dictionary lookups keyed by script names are not "
+             "traced back to their semantic checks."),
 }
 
 NA_REASONS = {
